@@ -202,6 +202,7 @@ func main() {
 	runNegativeControl(res)
 	// round 5: directed multi-round families (directed.go)
 	nPlace, nRelock, nRounds := placementSpace, relockVariants+1, f.Scale(2500, 20000)
+	nEarly := earlySpace // round 6: earlyreplay.go
 	workers := max(4, min(14, runtime.NumCPU()-2))
 	var wg sync.WaitGroup
 	var mu sync.Mutex
@@ -277,7 +278,7 @@ func main() {
 					}
 					agg[mode+"/inputs-delivered"] += w.nEv
 					agg[mode+"/inputs-with-actions"] += nontrivial
-					if mode == "relock" || mode == "rounds" || mode == "placement" {
+					if mode == "relock" || mode == "rounds" || mode == "placement" || mode == "earlyreplay" {
 						agg[mode+"/"+it.label]++
 					}
 					if mode == "adversary" {
@@ -340,9 +341,31 @@ func main() {
 							batch = batch[:0]
 						}
 						continue
-					case e < nPlace+nRelock:
+					case e < nPlace+nEarly:
+						// round 6: early next-height messages, commit, crash, replay, timers (four variants per point)
+						runs, viols := runEarlyPoint(e - nPlace)
+						for _, v := range viols {
+							res.Violate(v)
+						}
+						for k, er := range runs {
+							x := item{j: j*4 + k, mode: "earlyreplay", compare: true, sc: er.sc, w: er.w, label: fmt.Sprintf("%s(depth %d)", earlyNames[k], 1+(e-nPlace)/placementSpace)}
+							batch = append(batch, x)
+						}
+						mu.Lock()
+						agg["earlyreplay/reaction:"+strings.ReplaceAll(runs[0].reaction, ":2:0:", ":1:0:")]++
+						agg["earlyreplay/wal-entries-replayed"] += runs[1].replayed + runs[2].replayed + runs[3].replayed
+						if viols == nil && runs[0].dump != "" && runs[0].dump == runs[1].dump {
+							agg["earlyreplay/replayed-machine-equals-live-machine-before-Start"]++
+						}
+						mu.Unlock()
+						if len(batch) >= 64 {
+							flush(batch)
+							batch = batch[:0]
+						}
+						continue
+					case e < nPlace+nEarly+nRelock:
 						it.mode = "relock"
-						if v := e - nPlace; v < relockVariants {
+						if v := e - nPlace - nEarly; v < relockVariants {
 							it.sc, it.w = runRelock(v)
 							it.label = fmt.Sprintf("variant-%d", v)
 						} else {
@@ -355,7 +378,7 @@ func main() {
 						}
 					default:
 						it.mode = "rounds"
-						it.sc, it.w, it.label = genRounds(r.Fork(uint64(9000000 + e)))
+						it.sc, it.w, it.label = genRounds(r.Fork(uint64(9000000 + e - nEarly)))
 					}
 				} else {
 					// oracle on every point; the Lean model is compared on one point in eight
@@ -380,12 +403,32 @@ func main() {
 			flush(batch)
 		}()
 	}
-	for j := 0; j < nSim+nFuzz+nEx+nPh+nPlace+nRelock+nRounds; j++ {
+	for j := 0; j < nSim+nFuzz+nEx+nPh+nPlace+nEarly+nRelock+nRounds; j++ {
 		jobs <- j
 	}
 	close(jobs)
 	wg.Wait()
 	dwg.Wait()
+	// an overloaded machine starves the real-time traces (they ran next to the workers above): run more of
+	// them, alone and with a longer window, before declaring the family lost
+	for attempt, win := 0, 4*time.Second; attempt < 3 && (len(dChecks) < 200 || dCommits < 20 || dTimeouts < 20); attempt, win = attempt+1, win*3 {
+		traceWindowNs.Store(int64(win))
+		res.Hit("driver/traces-repeated-with-longer-window(machine overloaded)")
+		for k := 0; k < 6; k++ {
+			dwg.Add(1)
+			go func(k int) {
+				defer dwg.Done()
+				c, t, ck, rp := runDriverTrace(res, r.Fork(uint64(7100000+100*attempt+k)), k)
+				dmu.Lock()
+				dCommits += c
+				dTimeouts += t
+				dChecks = append(dChecks, ck...)
+				dReplays = append(dReplays, rp...)
+				dmu.Unlock()
+			}(k)
+		}
+		dwg.Wait()
+	}
 	if len(dChecks) < 200 {
 		res.Fatalf("driver traces starved: only %d executed action lists to compare with the model of driver.execute", len(dChecks))
 	} else if d, err := lib.StartDriver(f.Driver); err != nil {
@@ -427,6 +470,9 @@ func runReplay(f lib.Flags, res *lib.Result) {
 		return
 	}
 	defer drv.Close()
+	if body.Mode == "earlyreplay" && body.N == "" && body.Scenario != nil {
+		body.Mode = "relock" // a finding of the per-history oracle inside an earlyreplay run: a plain scenario
+	}
 	switch body.Mode {
 	case "thresholds":
 		n, err := strconv.ParseUint(body.N, 10, 64)
@@ -451,6 +497,23 @@ func runReplay(f lib.Flags, res *lib.Result) {
 		}
 		if viol != nil {
 			res.Violate(*viol)
+		}
+	case "earlyreplay":
+		code, err := strconv.Atoi(body.N)
+		if err != nil || code < 0 || code >= earlySpace {
+			res.Fatalf("replay: bad earlyreplay point")
+			return
+		}
+		runs, viols := runEarlyPoint(code)
+		for k, er := range runs {
+			askCompare(res, drv, er.w, er.sc, "earlyreplay")
+			res.Case(fmt.Sprintf("replay/earlyreplay-%d", k), true)
+			for _, v := range er.w.Viols {
+				res.Violate(lib.Violation{Sig: v.Sig, What: v.What, Replay: replayBody{Mode: "relock", Scenario: er.sc}})
+			}
+		}
+		for _, v := range viols {
+			res.Violate(v)
 		}
 	case "sim", "fuzz", "exhaustive", "adversary", "relock", "rounds":
 		if body.Scenario == nil {
